@@ -1,5 +1,6 @@
 pub mod c01;
 pub mod c02;
+pub mod c03;
 pub mod c05;
 pub mod c06;
 pub mod c07;
@@ -8,6 +9,7 @@ pub mod c09;
 pub mod c13;
 pub mod c15;
 pub mod c16;
+pub mod c17;
 pub mod c18;
 pub mod c19;
 pub mod c20;
@@ -18,6 +20,7 @@ pub fn table() -> Vec<(&'static str, PropFn)> {
     vec![
         ("C01", c01::run as PropFn),
         ("C02", c02::run as PropFn),
+        ("C03", c03::run as PropFn),
         ("C05", c05::run as PropFn),
         ("C06", c06::run as PropFn),
         ("C07", c07::run as PropFn),
@@ -26,6 +29,7 @@ pub fn table() -> Vec<(&'static str, PropFn)> {
         ("C13", c13::run as PropFn),
         ("C15", c15::run as PropFn),
         ("C16", c16::run as PropFn),
+        ("C17", c17::run as PropFn),
         ("C18", c18::run as PropFn),
         ("C19", c19::run as PropFn),
         ("C20", c20::run as PropFn),
